@@ -53,13 +53,22 @@ TEMPLATE = {
 BITS = {'b1': 8, 'b2': 16, 'b4': 32, 'bits20': 20, 'bits6': 6}
 
 
+LADDER = {'alen': {'max': 255, 'over': 256, 'neg': 4090, 'junk': 65535, 'huge': 65536}, 'ccount': {'max': 63, 'over': 64, 'neg': 1100, 'junk': 16383, 'huge': 16384}}
+
+
 def number(cap: str, low: int, val: str):
+    if cap in LADDER:
+        return LADDER[cap].get(val, low)
     mx = {'len32': 32, 'len128': 128}.get(cap) or (1 << BITS[cap]) - 1
     return {'low': low, 'max': mx, 'over': mx + 1, 'huge': (1 << 64) + 5, 'neg': -1, 'junk': None}[val]
 
 
 def text_of(u: dict, cap: str, low: int) -> str:
     n = number(cap, low, u['val'])
+    if u['field'] == 'attrlen':
+        return R + 'attribute [ 0xc8 0xc0 0x' + 'ab' * n + ' ]'
+    if u['field'] == 'commcount':
+        return R + 'community [ ' + ' '.join(f'{1 + i // 60000}:{i % 60000}' for i in range(n)) + ' ]'
     tpl = TEMPLATE[u['field']]
     if n is None:
         return tpl.replace('{N}', 'x7').replace('{X}', '0xzz')
@@ -167,7 +176,7 @@ def run(tier: str) -> int:
         'session negotiated through real OPENs; TLC (Judge_ExaText) checks accepted <=> the wire format holds the value, nothing raised, and that '
         'the bytes the RFC gives for the value appear in what was sent; distinct = distinct rows'
     )
-    ck.assumptions += ['one numeric position varied at a time around a valid definition; 60 positions (43 numbers, 10 octets of dotted addresses, 7 lone numbers where a pair or an address is expected); sessions: eBGP asn4+add-path, eBGP 2-byte peer, iBGP',
+    ck.assumptions += ['one numeric position varied at a time around a valid definition; 62 positions (43 numbers, 10 octets of dotted addresses, 7 lone numbers where a pair or an address is expected, 2 length ladders); sessions: eBGP asn4+add-path, eBGP 2-byte peer, iBGP',
                        'a refusal must come from the parser (located syntax error / error reply), not from the last-resort handler which reports an unexpected exception ("Unexpected error: <Exception>" on the API, "problem parsing configuration file line 0" for a file)']
     res, states = tlc.dump_states('Gen_ExaText', '', 'c18gen', ['u', 'frags'], cfg_text='SPECIFICATION GenSpec\nINVARIANT TableOK\nCHECK_DEADLOCK FALSE\n', workers=8)
     ck.tlc(res, 'Gen_ExaText: rows and expected fragments; invariant TableOK')
